@@ -29,7 +29,17 @@ candidate the real code is left with the unspecified content of a dirty temporar
 bound; the model returns the infinite value with the kept OPEN bit there, and the driver does
 not compare the model with the library on that sub-case — the verdict on the real output is
 still taken.)  `Interval::wrap_assign` has the switch `d12` (`u > lower` as written, `u ≥ lower`
-when repaired).
+when repaired).  `refine_universal` reads the argument's bound through `SCALAR_INFO`; for a
+`store_special` policy and an infinite argument bound the real code then reads the unspecified
+stored value — the model keeps the infinite value and the driver does not compare there either.
+
+Contents: `ExtRat`, `Policy`, `Bound`, `Iv`, `Rounding` (exact / integer / binary floating point);
+`Boundary_NS` (`lt le eq`, `assign`, `complement`, `min/max_assign`, `neg/add/sub/mul/div_assign`,
+`mul/div_assign_z`, `set_zero`, `umod/smod_2exp_assign`, `adjust_boundary`); `Interval`
+(`assign`, `contains`, `strictly_contains`, `is_disjoint_from`, `==`, `join/intersect/difference_assign`,
+`refine_existential/universal`, `neg/add/sub/mul/div_assign`, `wrap_assign`, `CC76_widening_assign`);
+`Linear_Form` `+`, `−`, scalar `×`.  Every definition here is executed against the real library at
+every run of `checks/c12.py` (driver `Driver/C12.lean`).
 -/
 namespace PPLV.Interval
 
